@@ -40,6 +40,10 @@ OPTS = [
     ("(u8, bool)", "(1, true)", "(1u8, true)", "tuple"),
     ("u8", "if true { 2 } else { 3 }", "2u8", "if-expr"),
     ("u32", "K32", "77u32", "const-path-into"),
+    # a conversion that exists as `Into` only; an expression calling an item named like a field of the same type
+    (CONV, "::dxrt::INTO_ONLY", conv("io4", "into_only"), "path-into"),
+    ("u32", "f0()", "41u32", "call"),
+    ("u32", "f1() + 1", "43u32", "call"),
     # a field type with an inherent associated fn `default()` that differs from its Default impl
     ("::dxrt::Inh", None, "::dxrt::Inh(1)", "none"),
     ("::dxrt::Inh", "_", "::dxrt::Inh(1)", "underscore"),
@@ -140,7 +144,7 @@ def render(spec, with_dx=True):
     kdef = f" pub const K: Ty = {special_const(spec, sv)};" if all(const_ok(f) for f in spec["variants"][sv]["fields"]) else ""
     extra = f"impl Ty {{ pub fn make() -> Ty {{ {special} }}{kdef} }}"
     return "\n".join([
-        "pub const K32: u32 = 77;",
+        "pub const K32: u32 = 77; pub fn f0() -> u32 { 41 } pub fn f1() -> u32 { 42 }",
         "#[derive(Debug)]", head + tl + item, extra,
         "pub fn run() {",
         (f'  let got = <Ty as ::core::default::Default>::default(); let want: Ty = {expected};' if with_dx else
